@@ -1,4 +1,5 @@
 """C07 — the published level partition is a valid parallel schedule."""
+import collections
 import json, pickle, base64, random
 import numpy as np
 from . import common, circ, wavecorr as wc
@@ -95,13 +96,27 @@ def eval_case(case):
         wc.overwrite_inputs(ws, srng, p=0.4)
         if variant == 'cpu-permuted': ws.ops = permute_levels(ws, prng)
         saved = wave_sim.wave_eval_gpu
+        saved_dev = getattr(wave_sim, '_wave_eval_gpu', None)
+        calls = collections.Counter()
         try:
             if variant.startswith('gpu'):
                 wave_sim.wave_eval_gpu = PermLauncher(saved, prng, case['order'])
+                if saved_dev is not None:       # count the evaluations the kernel threads really perform: (op row, lane)
+                    def counting(op, cbuf, c_locs, c_caps, sim, *rest):
+                        calls[(tuple(int(v) for v in op[:6]), int(sim))] += 1
+                        return saved_dev(op, cbuf, c_locs, c_caps, sim, *rest)
+                    wave_sim._wave_eval_gpu = counting
             with common.quiet():
                 ws.c_prop(); ws.c_to_s()
         finally:
             wave_sim.wave_eval_gpu = saved
+            if saved_dev is not None: wave_sim._wave_eval_gpu = saved_dev
+        if variant.startswith('gpu') and saved_dev is not None:
+            want = collections.Counter((tuple(int(v) for v in row[:6]), sim) for row in np.array(ws.ops) for sim in range(ws.sims))
+            if calls != want:
+                extra = sum((calls - want).values()); missing = sum((want - calls).values())
+                return False, {'sim': 'WaveSimCuda', 'variant': variant, 'evaluations': sum(calls.values()), 'surplus': extra, 'missing': missing}, \
+                    {'evaluations': sum(want.values()), 'each (operation, lane)': 'exactly once'}
         keep = ~scratch_mask(ws)
         snap = (np.array(ws.c)[keep].copy(), np.array(ws.s)[3:].copy(), np.array(ws.abuf).copy())
         if ref is None: ref = snap
@@ -110,6 +125,47 @@ def eval_case(case):
                 if not np.array_equal(a, b):
                     return False, {'sim': 'WaveSim', 'variant': variant, 'differs': name}, {'equal': 'canonical order'}
     return True, None, None
+
+
+def run_grid(nn, mm, bx, by):
+    """launch a recording kernel over nn x mm items through the real mock launcher with the real `_grid_dim`"""
+    from kyupy import cuda, wave_sim
+    log = []
+    @cuda.jit()
+    def probe(n, m):
+        x, y = cuda.grid(2)
+        log.append((int(x), int(y), bool(x < n and y < m)))
+    class Stub: pass
+    st = Stub(); st._block_dim = (bx, by)
+    gd = wave_sim.WaveSimCuda._grid_dim(st, nn, mm)
+    probe[gd, (bx, by)](nn, mm)
+    fmt = lambda l: ' '.join(f'{x}.{y}' for x, y in l) or '-'
+    real = f"{int(gd[0])},{int(gd[1])} | {fmt([(x, y) for x, y, _ in log])} | {fmt([(x, y) for x, y, a in log if a])}"
+    return real, sorted((x, y) for x, y, a in log if a)
+
+
+def corr_grid(ck, n):
+    """the REAL mock launcher (`kyupy.cuda.jit`, four nested loops) and `cdiv` / `WaveSimCuda._grid_dim` against the Lean model
+    `Grid.launch` / `Grid.cdiv`: launch order and the set of threads that pass the guards, for random item counts and block shapes"""
+    import kyupy
+    from kyupy import cuda, wave_sim
+    if type(cuda).__name__ != 'MockCuda':
+        ck.hist['grid:real-cuda-skipped'] += 1; return
+    cases = [(1, 1, 1, 1), (0, 3, 2, 2), (3, 0, 2, 2), (32, 16, 32, 16), (33, 17, 32, 16), (64, 32, 32, 16), (70, 5, 32, 16)]
+    while len(cases) < n:
+        cases.append((ck.rng.randint(0, 70), ck.rng.randint(0, 40), ck.rng.choice([1, 2, 3, 4, 8, 32]), ck.rng.choice([1, 2, 3, 5, 16])))
+    out = common.run_driver([f'grid {a} {b} {c} {d}' for a, b, c, d in cases])
+    for (nn, mm, bx, by), ans in zip(cases, out):
+        real, act = run_grid(nn, mm, bx, by)
+        ck.case(key=('grid', nn, mm, bx, by), nontrivial=nn > 0 and mm > 0 and (nn % bx != 0 or mm % by != 0), sample={'grid': [nn, mm, bx, by]},
+                tag=['grid', 'partial-block' if (nn % bx or mm % by) else 'full-blocks'])
+        if real != ans:
+            ck.broken_tie('MockCuda launcher / cdiv / _grid_dim vs Lean Grid.launch', f'items {nn}x{mm} blocks {bx}x{by}: real "{real[:200]}" != model "{ans[:200]}"',
+                          inp={'grid': [nn, mm, bx, by]})
+        # the property at this level, against ground truth: every item exactly once, nothing else
+        if act != sorted((x, y) for x in range(nn) for y in range(mm)):
+            ck.violation('gpu-grid', 'the kernel launch does not cover the work items exactly once', {'kind': 'grid', 'grid': [nn, mm, bx, by]},
+                         {'active_threads': len(act), 'distinct': len(set(act))}, {'items': nn * mm})
 
 
 def cert(case):
@@ -182,6 +238,7 @@ def oracle(ck, n, thorough=False):
 def run(ck):
     ck.prove([], TARGETS, theorems())
     n = 40 if ck.tier == 'quick' else 600
+    corr_grid(ck, 60 if ck.tier == 'quick' else 600)
     oracle(ck, n, ck.tier == 'thorough')
     if ck.broken and not ck.violations: oracle(ck, n * 4, ck.tier == 'thorough')
     ck.assumptions += ['real GPU scheduling is represented by atomic per-thread steps of the mock launcher (no numba/CUDA in this sandbox)',
@@ -190,6 +247,11 @@ def run(ck):
 
 
 def replay(rep):
+    if rep['input'].get('kind') == 'grid':
+        nn, mm, bx, by = rep['input']['grid']
+        real, act = run_grid(nn, mm, bx, by)
+        ok = act == sorted((x, y) for x in range(nn) for y in range(mm))
+        print(json.dumps({'ok': ok, 'launch': real[:300]})); return 0 if ok else 1
     ok, obs, exp = eval_case(rep['input'])
     print(json.dumps({'ok': ok, 'observed': obs, 'expected': exp}, default=str))
     return 0 if ok else 1
